@@ -291,9 +291,8 @@ func (p *Parser) initializePackages(filename string) (*packages.Package, error) 
 	return nil, errors.New("file is not in the same package")
 }
 
-// damagedOutputOverlay returns an overlay that replaces, by an empty file of the same package, every
-// output file in the directory of filename (X_band.go next to its source X.go) that does not parse;
-// nil when there is none.
+// damagedOutputOverlay returns an overlay that replaces, by an empty file of the package of filename,
+// every output file (X_band.go) in the directory of filename that does not parse; nil when there is none.
 func damagedOutputOverlay(filename string) map[string][]byte {
 	dir, err := filepath.Abs(filepath.Dir(filename))
 	if err != nil {
@@ -307,8 +306,7 @@ func damagedOutputOverlay(filename string) map[string][]byte {
 	var overlay map[string][]byte
 	for _, outputPath := range outputs {
 		ext := filepath.Ext(outputPath)
-		sourcePath := strings.TrimSuffix(strings.TrimSuffix(outputPath, ext), "_band") + ext
-		if sourcePath == outputPath || outputFileName(sourcePath) != outputPath {
+		if !strings.HasSuffix(strings.TrimSuffix(outputPath, ext), "_band") {
 			continue
 		}
 		content, err := os.ReadFile(outputPath)
@@ -318,7 +316,8 @@ func damagedOutputOverlay(filename string) map[string][]byte {
 		if _, err := parser.ParseFile(token.NewFileSet(), outputPath, content, parser.SkipObjectResolution); err == nil {
 			continue
 		}
-		source, err := parser.ParseFile(token.NewFileSet(), sourcePath, nil, parser.PackageClauseOnly)
+		// (its source may be gone: the package clause is taken from the file being processed)
+		source, err := parser.ParseFile(token.NewFileSet(), filename, nil, parser.PackageClauseOnly)
 		if err != nil || source.Name == nil {
 			continue
 		}
